@@ -2,7 +2,7 @@
     Model: Merge.v (follows /repo's mergeable / mergemany / merge_as_union / simplify_* / numbers_to_type). *)
 From Coq Require Import ZArith List.
 From AwkV Require Import Base Layout Valid Types Carry.
-From AwkMerge Require Import Merge Proofs_C08 Proofs_MM Proofs_Simplify.
+From AwkMerge Require Import Merge Proofs_C08 Proofs_MM Proofs_Simplify Proofs_SU.
 Import ListNotations.
 Open Scope Z_scope.
 
@@ -69,3 +69,26 @@ Theorem simplify_option_flat : forall c c' ci,
   exists cc, opt_content c' = Some cc /\ optionlike cc = false.
 Proof. exact simplify_option_flat_pf. Qed.
 Print Assumptions simplify_option_flat.
+
+(* (d) simplify_uniontype(merge = False): a union whose alternatives may themselves be (valid) unions is
+   flattened without changing any value, and no union is left directly inside the result.
+   _partial: merge = True (alternatives merged by mergemany, booleans cast when mergebool) and the case of a
+   single remaining alternative (C++ carries that alternative) are covered by the tests only. *)
+Theorem simplify_union_value_partial : forall mb c w tags index cs0 vs c',
+  body c = Union w tags index cs0 -> is_strk (fst (params c)) = false ->
+  Forall (fun x => valid_b x = true) cs0 -> (2 <= length (flat_alts cs0))%nat ->
+  to_list c = Ok vs -> simplify_union false mb c = Ok c' ->
+  to_list c' = Ok vs /\
+  exists t' i', body c' = Union I64 t' i' (flat_alts cs0) /\ Forall (fun y => unionlike y = false) (flat_alts cs0).
+Proof. exact simplify_union_value_pf. Qed.
+Print Assumptions simplify_union_value_partial.
+
+(* numbers_to_type on a 1-d NumpyArray is exactly the element-wise cast of the specification, and the
+   result has the requested dtype.  _partial: the structural recursion through the other node classes is
+   covered by the tests only. *)
+Theorem astype_only_casts_partial : forall dt dst n data vs c',
+  to_list (Numpy dt [n] data) = Ok vs -> astype_model dst (Numpy dt [n] data) = Ok c' ->
+  exists vs', to_list c' = Ok vs' /\ astype_spec dst (type_of (Numpy dt [n] data)) vs = Ok vs' /\
+              type_of c' = astype_ty dst (type_of (Numpy dt [n] data)).
+Proof. exact astype_numpy_pf. Qed.
+Print Assumptions astype_only_casts_partial.
